@@ -17,6 +17,7 @@ import Sudachi.Model.SubsetRw
 import Sudachi.Model.Split
 import Sudachi.Model.Params
 import Sudachi.Model.ParamsCfg
+import Sudachi.Model.ParamsGrammar
 import Sudachi.Model.LayersIO
 import Sudachi.Model.Codec
 import Sudachi.Model.CodecBuild
@@ -47,7 +48,7 @@ def answer (line : String) : String :=
     | "C14" => Rewrite.handle rest
     | "C11" => Subset.handleAll op rest
     | "C09" => Split.handle op rest
-    | "C20" => Params.handle2 op rest
+    | "C20" => Params.handle3 op rest
     | "C12" => Layers.handle op rest
     | "C05" => Codec.handle rest
     | "C04" => Trie.handle op rest
